@@ -230,6 +230,21 @@ func structuralCandidates(s *spec.Spec) []*spec.Spec {
 			}
 		}
 	case "C10":
+		// long sessions first lose whole stretches of lookups (halves, quarters, eighths), repeats re-pointed or dropped
+		if n := len(s.Lookups); n > 12 {
+			for _, parts := range []int{2, 4, 8} {
+				sz := (n + parts - 1) / parts
+				for a := 0; a < n; a += sz {
+					b := a + sz
+					if b > n {
+						b = n
+					}
+					if c := dropLookups(s, a, b); c != nil {
+						out = append(out, c)
+					}
+				}
+			}
+		}
 		for i := range s.Lookups {
 			if s.Lookups[i].API == 0 && s.Lookups[i].Base != 1900 && s.Lookups[i].Tie == nil {
 				c := clone(s)
@@ -512,4 +527,33 @@ func debugErr(s *spec.Spec, err error) {
 	f.Write(b)
 	f.Close()
 	fmt.Fprintf(os.Stderr, "vsim: debug: candidate failed to run: %v (spec %s)\n", err, f.Name())
+}
+
+// dropLookups removes lookups [a,b) of a single-caller C10 run; a lookup that repeats the moment of a removed one
+// goes too, later repeat indices are re-pointed. nil if nothing would remain.
+func dropLookups(s *spec.Spec, a, b int) *spec.Spec {
+	c := clone(s)
+	newIdx := make([]int, len(c.Lookups))
+	var keep []spec.Lookup
+	for i, lk := range c.Lookups {
+		newIdx[i] = -1
+		if i >= a && i < b {
+			continue
+		}
+		if lk.Repeat != nil {
+			j := *lk.Repeat
+			if j < 0 || j >= i || newIdx[j] < 0 {
+				continue
+			}
+			nj := newIdx[j]
+			lk.Repeat = &nj
+		}
+		newIdx[i] = len(keep)
+		keep = append(keep, lk)
+	}
+	if len(keep) == 0 || len(keep) == len(c.Lookups) {
+		return nil
+	}
+	c.Lookups = keep
+	return c
 }
